@@ -58,7 +58,9 @@ def mismatches(ctx, pend, mm, pred=None):
 
 
 def parse_impl(v, code):
-    return parso.load_grammar(version=v).parse(code)
+    from harness import common
+    with common.time_limit(20):
+        return parso.load_grammar(version=v).parse(code)
 
 
 def has_error(m):
@@ -85,7 +87,9 @@ def search_texts(ctx, n, pred, stream, kinds=None, versions=None, need_tree=True
         try:
             if need_tree:
                 m = parse_impl(v, code)
-            sig = pred(v, code, m)
+            from harness import common
+            with common.time_limit(60):
+                sig = pred(v, code, m)
         except RecursionError:
             continue
         except Exception as e:
